@@ -376,8 +376,9 @@ def handle (j : Json) : Json :=
       let m1 := monC01Order inp n tr
       let m2 := monC01NoOverlap inp n tr
       let m3 := monC02AtMostOnce n tr
-      let m4 := monC02InsideClosure inp n tr
-      let m5 := monC02AllProcessed inp n tr exit
+      let clo := closureOfF inp n tr       -- computed once: m4 = monC02InsideClosure, m5 = monC02AllProcessed (by `rfl`)
+      let m4 := insideClosureOn clo n tr
+      let m5 := allProcessedOn clo inp tr exit
       Json.mkObj [
         ("accepted", Json.bool (v = .accepted)),
         ("skipped", Json.bool (v = .budget || (v = .rejected && b.capped))),
@@ -389,7 +390,7 @@ def handle (j : Json) : Json :=
           ("C02_at_most_once", Json.bool m3), ("C02_inside_closure", Json.bool m4),
           ("C02_all_processed", Json.bool m5)]),
         ("hyp", Json.mkObj [("acyclic", Json.bool acyclic)]),
-        ("closure", ofNats (closureOfF inp n tr)),
+        ("closure", ofNats clo),
         ("complete", Json.bool (runComplete inp tr exit))]
 
 end Driver.Run
